@@ -864,8 +864,15 @@ struct Extractor : RecursiveASTVisitor<Extractor> {
 		if(auto *co = le->getCallOperator())
 			if(co->isThisDeclarationADefinition())
 				pending.push_back(co);
+		// generic lambda: the call operator is a template; its instantiations are the functions that run
+		if(le->isGenericLambda())
+			if(auto *ft = le->getDependentCallOperator())
+				for(auto *sp : ft->specializations())
+					if(sp->isThisDeclarationADefinition() && doneGeneric.insert(sp->getCanonicalDecl()).second)
+						pending.push_back(sp);
 		return true;
 	}
+	std::set<const Decl *> doneGeneric;
 	bool VisitCXXRecordDecl(CXXRecordDecl *rd) {
 		if(rd->isThisDeclarationADefinition() && rd->isCompleteDefinition()
 				&& !rd->isDependentContext() && underRoot(patternLoc(rd))
